@@ -147,6 +147,13 @@ func (g *Gen) HistoryBulk(size int) []E {
 	var evs []E
 	evs = append(evs, E{"op": "CreateCollection", "c": c, "audit": false})
 	idxSet := [][]string{{}, {"x"}, {"k"}, {"x", "k"}}[g.r.Intn(4)]
+	// one history in five: two indexes, a conjunction that restricts both indexed fields in the same way and a
+	// window without a sort - the specification leaves the selection open, FindAll and the bulk operation that
+	// follows it must make the same one (InvC03Pair), on every backend (InvBackendsAgree)
+	sameChoice := size >= 7 && size <= 350 && g.chance(0.35)
+	if sameChoice {
+		idxSet = []string{"x", "k"}
+	}
 	before := g.chance(0.5)
 	if before {
 		for _, f := range idxSet {
@@ -224,6 +231,20 @@ func (g *Gen) HistoryBulk(size int) []E {
 	} else if g.chance(0.25) { // unsorted window: any selection of the right size is acceptable
 		q = append(q, []interface{}{"limit", g.r.Intn(size + 2)})
 	}
+	if sameChoice {
+		lo := ANum(g.smallN[g.r.Intn(2)], "i")
+		kind := g.pick([]string{"gte", "eq"})
+		if kind == "eq" {
+			lo = v
+		}
+		q = []interface{}{[]interface{}{"where", []interface{}{"and",
+			[]interface{}{"un", kind, B("x"), []interface{}{"lit", lo}},
+			[]interface{}{"un", kind, B("k"), []interface{}{"lit", lo}}}},
+			[]interface{}{"skip", g.r.Intn(3)}, []interface{}{"limit", 1 + g.r.Intn(size/3+1)}}
+		if g.chance(0.3) { // ... or a sort with ties
+			q = append(q, []interface{}{"sort", []interface{}{[]interface{}{B("p"), 1}}})
+		}
+	}
 	rewriteX := false
 	if size >= 1000 {
 		// many pages: prefer operations that rewrite the very field the query filters on
@@ -250,7 +271,9 @@ func (g *Gen) HistoryBulk(size int) []E {
 		}
 	}
 	opk := g.r.Intn(9)
-	if size >= 2 && size <= 64 && g.chance(0.25) {
+	if sameChoice {
+		opk = []int{0, 2, 7, 4}[g.r.Intn(4)]
+	} else if size >= 2 && size <= 64 && g.chance(0.25) {
 		// an update map without the stamp: the documents that already hold the value are selected (they
 		// count against skip and limit) although nothing shows on them
 		opk = 9
